@@ -154,7 +154,20 @@ pub fn classify(b: &[u8]) -> HttpClass {
             return HttpClass::DontCare("empty-header-name");
         }
         if b[i] == b' ' || b[i] == b'\t' {
-            return HttpClass::DontCare("folded-header-line");
+            // a line that starts with white space: with a colon it is arguably a 'name: value'
+            // line with an odd name (don't-care); without one it is no header line under any reading
+            // of the statement (which has no continuation lines)
+            let mut j = i;
+            while j < b.len() && b[j] != b'\r' && b[j] != b'\n' && b[j] != b':' {
+                j += 1;
+            }
+            if j >= b.len() {
+                return HttpClass::Incomplete;
+            }
+            if b[j] == b':' {
+                return HttpClass::DontCare("folded-header-line");
+            }
+            return HttpClass::Malformed("header-without-colon");
         }
         let mut colon = false;
         while i < b.len() {
@@ -341,8 +354,27 @@ pub fn gen_fault(rng: &mut Rng) -> Vec<u8> {
             // header line without colon (only meaningful if it ends up before the empty line)
             let p = find(&v, b" HTTP/").unwrap();
             let e = p + v[p..].iter().position(|c| *c == b'\n').unwrap() + 1;
+            // ... after the request line or after any later header line
+            let e = if rng.chance(1, 2) {
+                e
+            } else {
+                let ends: Vec<usize> = (e..v.len().saturating_sub(1)).filter(|k| v[*k] == b'\n').map(|k| k + 1).collect();
+                if !ends.is_empty() {
+                    ends[rng.usize_below(ends.len())]
+                } else {
+                    e
+                }
+            };
             let mut o = v[..e].to_vec();
-            o.extend_from_slice(&token(rng, 1, 12));
+            // one time in three the line starts with white space (what a "continuation line" would look like)
+            match rng.below(6) {
+                0 => o.extend_from_slice(*rng.pick(&[&b" "[..], b"\t", b"  ", b" \t "])),
+                1 => {
+                    o.push(*rng.pick(b" \t"));
+                    o.extend_from_slice(&token(rng, 1, 12));
+                }
+                _ => o.extend_from_slice(&token(rng, 1, 12)),
+            }
             o.extend_from_slice(if rng.chance(1, 2) { b"\r\n" } else { b"\n" });
             o.extend_from_slice(&v[e..]);
             o
